@@ -52,13 +52,13 @@ type instRef struct {
 func (i *inst) ref() *instRef { return &instRef{i.sh.strict, i.v, i.wrapped} }
 
 type replay struct {
-	Check    string   `json:"check"`
-	A        *instRef `json:"a,omitempty"`
-	B        *instRef `json:"b,omitempty"`
-	C        *instRef `json:"c,omitempty"`
-	Causal   bool     `json:"causal"`
-	Thorough bool     `json:"thorough_universe"`
-	Expr     string   `json:"tlc_expr,omitempty"`
+	Check    string          `json:"check"`
+	A        *instRef        `json:"a,omitempty"`
+	B        *instRef        `json:"b,omitempty"`
+	C        *instRef        `json:"c,omitempty"`
+	Causal   bool            `json:"causal"`
+	Thorough bool            `json:"thorough_universe"`
+	Expr     string          `json:"tlc_expr,omitempty"`
 	Deep     json.RawMessage `json:"deep,omitempty"`
 	Cross    *crossCase      `json:"cross,omitempty"`
 }
@@ -386,20 +386,20 @@ func (c *checker) checkPair(a, b *inst, pb *perB, pc *pairCounts) bool {
 }
 
 type halfStats struct {
-	Shapes        int              `json:"shapes"`
-	StrictClasses int              `json:"distinct_values_strict"`
-	NormClasses   int              `json:"distinct_tla_values"`
-	Instances     int              `json:"instances"`
-	PairColumns   int              `json:"pair_columns"`
-	ByDepth       map[string]int   `json:"shapes_by_depth"`
-	ByKind        map[string]int   `json:"shapes_by_kind"`
-	Counts        map[string]int64 `json:"checks"`
-	EqualClasses  int              `json:"equal_classes_observed"`
-	HashValues    int              `json:"distinct_hashes_observed"`
-	CoreSize      int              `json:"core_size"`
-	Complete      bool             `json:"complete"`
+	Shapes        int                `json:"shapes"`
+	StrictClasses int                `json:"distinct_values_strict"`
+	NormClasses   int                `json:"distinct_tla_values"`
+	Instances     int                `json:"instances"`
+	PairColumns   int                `json:"pair_columns"`
+	ByDepth       map[string]int     `json:"shapes_by_depth"`
+	ByKind        map[string]int     `json:"shapes_by_kind"`
+	Counts        map[string]int64   `json:"checks"`
+	EqualClasses  int                `json:"equal_classes_observed"`
+	HashValues    int                `json:"distinct_hashes_observed"`
+	CoreSize      int                `json:"core_size"`
+	Complete      bool               `json:"complete"`
 	PhaseSeconds  map[string]float64 `json:"phase_seconds"`
-	Samples       []string         `json:"samples"`
+	Samples       []string           `json:"samples"`
 }
 
 // runHalf runs every check without (causal=false) or with (causal=true) vector-clock wrapping.
